@@ -16,12 +16,29 @@ import json, os, re, subprocess, sys, time, glob, shutil
 import vlib
 
 VERIF = vlib.VERIF
-WRAPS = ["malloc", "calloc", "realloc", "free",
-         "psGetBrokenDownGMTime", "psGetEntropy", "psGetPrngLocked", "psGetTime", "csAesGcmEncryptTls13", "csChacha20Poly1305IetfEncryptTls13"]
+WRAPS = ["malloc", "calloc", "realloc", "free", "psGetBrokenDownGMTime", "psGetEntropy", "psGetPrngLocked", "psGetTime"]
 SAN = ["-fsanitize=address,undefined", "-fno-omit-frame-pointer", "-no-pie"]
-QUICK_SCEN = ["keys", "tls12-cauth", "tls13-cauth"]      # client-auth runs cover the plain handshakes' allocation sites
-ALL_SCEN = ["keys", "tls12", "tls13", "tls12-cauth", "tls13-cauth", "tls12-ec", "tls13-ec-cauth", "tls11", "tls12-rsa-cbc",
-            "tls12-ticket", "tls13-chacha"]
+# scenario -> expected fault-free shape: resumption pattern of the server per connection (positive scenarios)
+POSITIVE = {"keys": "", "tls12": "01", "tls12-ticket-renew": "0101", "tls13": "01", "tls12-cauth": "01", "tls13-cauth": "01",
+            "tls12-ec-cauth": "01", "tls13-ec-cauth": "01", "tls11": "01", "tls12-rsa-cbc": "01", "tls12-cbc-sha384": "01",
+            "tls13-chacha": "01", "tls13-psk": "11"}
+NEGATIVE = ["neg12-name", "neg13-name", "neg12-ca", "neg13-ca", "neg12-clientcert", "neg13-clientcert", "neg12-cb", "neg13-cb",
+            "neg13-psk", "neg12-ec-name"]
+# quick tier: the scenarios of the property's quantifier with deterministic subsampling (first QUICK_OCC executions of every
+# (call stack, API call, phase) combination are fault points); thorough: every scenario, every k
+QUICK_SCEN = ["keys", "tls12", "tls12-ticket-renew", "tls12-ticket-renew+del", "tls13", "tls13+del", "tls12-cauth", "tls13-cauth", "tls13-cauth+del",
+              "tls12-ec-cauth", "tls13-psk", "tls12-cbc-sha384",
+              "neg12-name", "neg13-name", "neg12-ca", "neg13-ca", "neg12-clientcert", "neg13-clientcert", "neg12-cb", "neg13-cb", "neg13-psk"]
+QUICK_OCC = 10
+# "<scenario>+del": the application deletes its objects right after the connection in which the allocation failed
+ALL_SCEN = list(POSITIVE) + NEGATIVE + [s_ + "+del" for s_ in POSITIVE if s_ != "keys"]
+NEG_WHAT = {"neg12-name": "expectedName does not match the server certificate", "neg13-name": "expectedName does not match the server certificate",
+            "neg12-ec-name": "expectedName does not match the server certificate",
+            "neg12-ca": "server chain does not lead to the client's CA", "neg13-ca": "server chain does not lead to the client's CA",
+            "neg12-clientcert": "client certificate is not trusted by the server", "neg13-clientcert": "client certificate is not trusted by the server",
+            "neg12-cb": "the client's certificate callback rejects", "neg13-cb": "the client's certificate callback rejects",
+            "neg13-psk": "the two sides hold different PSKs (and the certificate fallback has a wrong name)"}
+PHASE_CONN = {"handshake": 0, "handshake-resumed": 1, "handshake-renewal": 2, "handshake-resumed2": 3}
 # functions whose presence in the failing allocation's call stack makes it a verification-path allocation
 VERIFY_FUNCS = re.compile(r"^(matrixValidateCerts\w*|psX509AuthenticateCert|psX509ParseCert\w*|parse_single_cert|psVerifySig|psVerify\w*|"
                           r"psRsaVerify\w*|psEccDsaVerify\w*|psEccVerify\w*|pubRsaDecryptSignedElement\w*|psRsaDecryptPub\w*|validateDateRange|"
@@ -179,9 +196,9 @@ def parse_report(txt, baseline_ub=frozenset()):
                     fn = fm.group(2); break
             if (os.path.basename(f), ln) not in baseline_ub:
                 out["ub"].append((f, ln, msg, fn))
-        m = re.search(r"ERROR: AddressSanitizer: (\S+)", l)
+        m = re.search(r"ERROR: AddressSanitizer: (attempting \S+|\S+)", l)
         if m and out["kind"] is None:
-            out["kind"] = m.group(1)
+            out["kind"] = m.group(1).replace("attempting ", "")
             # first frame inside the library
             for j in range(i + 1, min(i + 60, len(lines))):
                 fm = FRAME_RE.search(lines[j])
@@ -295,7 +312,7 @@ def owner_of(sym, stack):
     return last or ("??", "??", 0)
 
 
-def analyse(ck, exe, scen, data, sidx, sym, multi, report):
+def analyse(ck, exe, scen, data, sidx, sym, multi, report, seed_used=1):
     """report: callable(sig, what, replay).  Returns per-site observations {key: {"reached":n,"crashed":n}}"""
     A, F, V, R, Bs = data["A"], data["F"], data["V"], data["R"], data["B"]
     obs = {}
@@ -317,9 +334,17 @@ def analyse(ck, exe, scen, data, sidx, sym, multi, report):
         if note not in ck.notes:
             ck.notes.append(note)
     # fault-free run must itself be nominal
-    nominal = (b["ok"] == "1" and b["leaks"] == "0" and b["undoc"] == "-")
+    neg = int(b.get("neg", "0"))
+    if scen.split("+")[0] in POSITIVE:
+        pat = POSITIVE[scen.split("+")[0]]
+        nominal = (b["ok"] == "1" and b["leaks"] == "0" and b["undoc"] == "-" and b.get("cfglost", "-") == "-" and
+                   b.get("resumed", "")[:len(pat)] == pat and b.get("cdone", "")[:len(pat)] == "1" * len(pat) and b.get("sdone", "")[:len(pat)] == "1" * len(pat))
+    else:
+        # negative twin: the verification step under test refuses the handshake; nobody listed in `neg` completes, no data flows
+        nominal = (neg != 0 and b["leaks"] == "0" and b["undoc"] == "-" and b.get("cfglost", "-") == "-" and b["app_c"] == "0" and b["app_s"] == "0" and
+                   not ((neg & 1) and b["cdone"][0] == "1") and not ((neg & 2) and b["sdone"][0] == "1"))
     if not nominal:
-        report("baseline:%s" % scen, "fault-free run of scenario %s is not nominal: ok=%s leaks=%s undocumented=%s" % (scen, b["ok"], b["leaks"], b["undoc"]),
+        report("baseline:%s" % scen, "fault-free run of scenario %s is not nominal: %s" % (scen, {k_: b.get(k_) for k_ in ("ok", "leaks", "undoc", "cfglost", "resumed", "cdone", "sdone", "neg", "app_c", "app_s")}),
                {"scenario": scen, "baseline": b})
     # symbolise everything we need in one go
     addrs = set()
@@ -358,7 +383,7 @@ def analyse(ck, exe, scen, data, sidx, sym, multi, report):
         for x in f.get("bt", "").split(","):
             if x:
                 bt_funcs += [g[0] for g in sym.frames(int(x, 16))]
-        replay = {"harness": "h_fault", "scenario": scen, "k": k, "multi": multi, "seed": ck.seed, "failing_allocation": "%s:%d in %s" % (rel_of(fr[1]), fr[2], fr[0]),
+        replay = {"harness": "h_fault", "scenario": scen, "k": k, "multi": multi, "seed": seed_used, "failing_allocation": "%s:%d in %s" % (rel_of(fr[1]), fr[2], fr[0]),
                   "site_key": key, "api_in_progress": f.get("api"), "phase": f.get("phase"), "stack": bt_funcs[:10]}
         r = R.get(k)
         v = V.get(k)
@@ -411,8 +436,8 @@ def analyse(ck, exe, scen, data, sidx, sym, multi, report):
         # ---- handshake reported complete although a verification-path allocation failed on that side
         side = f.get("side", "-")
         if f.get("phase", "").startswith("handshake") and side in "cs" and any(VERIFY_FUNCS.match(g) for g in bt_funcs):
-            idx = 1 if f["phase"].endswith("resumed") else 0
-            done = v.get("cdone" if side == "c" else "sdone", "0000")
+            idx = PHASE_CONN.get(f["phase"], 0)
+            done = v.get("cdone" if side == "c" else "sdone", "00000000")
             if done[idx] == "1":
                 stats["complete_after_verify_fault"] += 1
                 vf = [g for g in bt_funcs if VERIFY_FUNCS.match(g)][0]
@@ -420,6 +445,28 @@ def analyse(ck, exe, scen, data, sidx, sym, multi, report):
                        "handshake reported complete on the %s although an allocation inside %s failed (%s, scenario %s, allocation #%d)" %
                        ("client" if side == "c" else "server", vf, replay["failing_allocation"], scen, k),
                        dict(replay, observed="matrixSslHandshakeIsComplete = 1 on that side", expected_by_spec="handshake fails (alert / error return)"))
+        # ---- negative twin: the verification step under test must refuse the handshake under EVERY fault
+        vneg = int(v.get("neg", "0"))
+        if vneg:
+            who = []
+            if (vneg & 1) and "1" in v.get("cdone", ""): who.append("client")
+            if (vneg & 2) and "1" in v.get("sdone", ""): who.append("server")
+            if int(v.get("app_c", "0")) or int(v.get("app_s", "0")): who.append("application data delivered")
+            if who:
+                stats["verification_skipped"] = stats.get("verification_skipped", 0) + 1
+                report("verification-skipped:%s:%s" % (scen, key),
+                       "handshake reported complete with a verification step skipped: in scenario %s (a handshake that MUST fail: %s) the %s completed after %s:%d (%s) returned NULL [%s, allocation #%d, call in progress %s -> rc %s]" %
+                       (scen, NEG_WHAT.get(scen, scen), " and ".join(who), rel_of(fr[1]), fr[2], fr[0], f.get("phase"), k, f.get("api"), v.get("fault_rc")),
+                       dict(replay, observed="cdone=%s sdone=%s app_c=%s app_s=%s" % (v.get("cdone"), v.get("sdone"), v.get("app_c"), v.get("app_s")),
+                            expected_by_spec="no side reports HANDSHAKE_COMPLETE: " + NEG_WHAT.get(scen, "")))
+        # ---- an API call reported success but the security-relevant configuration it was asked to install is missing
+        if v.get("cfglost", "-") != "-":
+            stats["config_lost"] = stats.get("config_lost", 0) + 1
+            first = v["cfglost"].split(",")[0]
+            report("config-lost:%s" % first,
+                   "API call reports success after an allocation failure but did not install what it was asked to: %s missing after %s:%d (%s) returned NULL in scenario %s [%s, allocation #%d] (NULL there means 'not requested': the check is silently off)" %
+                   (v["cfglost"], rel_of(fr[1]), fr[2], fr[0], scen, f.get("phase"), k),
+                   dict(replay, observed="missing: " + v["cfglost"], expected_by_spec="error return, or the configuration is in place"))
         # ---- leaks
         nl = int(v.get("leaks", "0"))
         if nl:
@@ -483,14 +530,15 @@ def run(ck):
     allobs = {}
     totals = {}
     unmapped_all = {}
-    plans = [(s, 0) for s in scen]
+    occ = 0 if thorough else QUICK_OCC
+    plans = [(s, 0, occ) for s in scen]
     if thorough:
-        plans += [(s, 40) for s in scen if s != "keys"] + [(s, 400) for s in scen] + [(s, 7) for s in QUICK_SCEN]
-    for (s, multi) in plans:
+        plans += [(s, 40, 0) for s in scen if s != "keys"] + [(s, 400, 0) for s in POSITIVE] + [(s, 7, 0) for s in QUICK_SCEN]
+    for (s, multi, maxocc) in plans:
         t1 = time.time()
-        procs = run_scenario(exe, s, outdir, 4, 2, 0, multi, ck.seed + (multi * 1000), lsan=(thorough and multi == 0))
+        procs = run_scenario(exe, s, outdir, 4, 2, maxocc, multi, ck.seed + (multi * 1000), lsan=(thorough and multi == 0))
         data = collect(procs, timeout=3000)
-        obs, st = analyse(ck, exe, s, data, sidx, sym, multi, report)
+        obs, st = analyse(ck, exe, s, data, sidx, sym, multi, report, seed_used=ck.seed + (multi * 1000))
         for key, o in obs.items():
             a = allobs.setdefault(key, {"reached": 0, "crashed": 0, "crash_in_func": 0, "site": o["site"], "tolerated": 0, "leaked": 0, "scen": set()})
             for f in ("reached", "crashed", "crash_in_func"):
@@ -544,15 +592,19 @@ def run(ck):
     tol = sorted(((k, o["tolerated"]) for k, o in allobs.items() if o["tolerated"]), key=lambda x: -x[1])
     ck.cov["tolerated_failures_by_site"] = tol[:40]
     ck.cov["explored_only"] = [
-        "unwinding correctness after a failed allocation (no leak, no double free) outside the table lemma: explored by exhaustive single-fault (and random multi-fault) injection over the scenarios, not proved",
+        "unwinding correctness after a failed allocation (no leak, no double free, no stale pointer in application-owned objects) outside the table lemma: explored by fault injection over the scenarios (thorough: every allocation of every scenario; quick: the first %d executions of every (call stack, API call, phase) combination), not proved" % QUICK_OCC,
         "error propagation in the CALLERS of a guarded site (the error edge reaches the API boundary as an error code / alert): explored, not proved",
+        "'no handshake reported complete with a verification step skipped': explored by the negative-twin scenarios (a handshake that must fail - wrong name, wrong CA, untrusted client certificate, rejecting callback, wrong PSK - must fail under every fault position) and by the installed-configuration check after every successful API call; not a theorem",
         "sites not reached by any scenario (%d of %d): covered by the table theorem only, their classification is not cross-checked by execution" % (len(sites) - len(reached_sites), len(sites)),
-        "StoredOnly sites: the consumer's NULL test is located lexically (same field name), not proved to dominate every use",
-        "'no handshake complete with a verification step skipped': checked on the scenarios for allocations whose call stack contains a verification function; not a theorem",
-        "allocations made by libc on behalf of the library (fopen, getline, ...) are outside the interposer",
+        "the translator finds allocation wrappers lexically (pointer-returning functions whose return value is an allocation result); a wrapper that hands its block back through an out-parameter is covered through the caller's test of the status code only",
+        "GuardedBeforeUse says that a NULL test precedes every use on the text the scanner follows; that the tested branch really leaves the function is explored, not proved",
+        "allocations made by libc on behalf of the library (fopen, getline, ...) are outside the interposer; DTLS sessions are not driven",
     ]
-    ck.rules.append("fault points: EVERY library allocation k of each scenario's fault-free run (exhaustive single fault, fork at the allocation); "
-                    "thorough adds 8 more scenarios and random multi-fault (after the first failure each later allocation fails with p=1/40, 1/400, and 1/7 on the quick scenarios); non-trivial = distinct table site driven to failure")
+    ck.rules.append("scenarios: " + ", ".join(scen))
+    ck.rules.append("fault points: thorough = EVERY library allocation k of each scenario's fault-free run (exhaustive single fault, fork at the allocation) + random multi-fault "
+                    "(after the first failure each later allocation fails with p=1/40, 1/400, 1/7); quick = deterministic subsample: the first %d executions of every (call stack, API call, phase) combination; "
+                    "oracles per fault: no crash/sanitizer report, documented return codes, configuration installed after a successful call, negative twins never complete, "
+                    "no live library block after the application deleted sessions, session id and keys; non-trivial = distinct table site driven to failure" % QUICK_OCC)
     # ---- 4. findings
     order = sorted(findings.items(), key=lambda x: (0 if x[0].startswith("crash") else 1 if x[0].startswith("complete") else 2, x[0]))
     for sig, f in order:
